@@ -95,6 +95,33 @@ def check_history(case, ctx: Ctx):
             ok, new = ctx.maybe(lambda: h + o)
             if not ok:
                 new = None
+        elif name == "add_grown":
+            # adaptive operands over different ranges: the right operand is a histogram of its own, kept under observation
+            if not h.is_adaptive() or is_transformed(h) or any(b.bin_count == 0 for b in h.binnings):
+                continue
+            o, p = h.copy(), h.copy()
+            pt, qt = [], []
+            for ax_i, b in enumerate(h.binnings):
+                lo, hi = float(b.bins[0][0]), float(b.bins[-1][1])
+                t = op[2][ax_i % len(op[2])]
+                pt.append(lo + (hi - lo) * t)
+                qt.append(lo + (hi - lo) * (1.0 - t))  # on the other side
+            # two copies grown in opposite directions: neither range contains the other
+            ctx.call(what + " grow the right operand", o.fill, pt[0] if d == 1 else pt)
+            ctx.call(what + " grow the left operand", p.fill, qt[0] if d == 1 else qt)
+            extra += [o, p]
+            o_before = snapshot(o)
+            # (histograms that carry missed values legitimately refuse to adapt)
+            if op[3]:
+                ok, new = ctx.maybe(lambda: p + o)
+                if not ok:
+                    new = None
+            else:
+                def g2(pp=p, oo=o):
+                    pp += oo
+                ctx.maybe(g2)
+            require(snap_equal(o_before, snapshot(o)), "operand_modified", lambda: f"{what}: right operand changed: {snap_diff(o_before, snapshot(o))}")
+            ctx.label("add_grown")
         elif name == "sub":
             o = h.copy()
             new = ctx.call(what, lambda: h - o)
@@ -260,11 +287,11 @@ def check_history(case, ctx: Ctx):
                 require(new is not obj, "result_is_operand", f"{what}: result is pool object {j}")
             pool.append(new)
             parents.append(i)
-            for x in extra:
-                wellformed(x, f"{what}: second result")
-                pool.append(x)
-                parents.append(i)
             ctx.label("derive_" + name)
+        for x in extra:
+            wellformed(x, f"{what}: second object")
+            pool.append(x)
+            parents.append(i)
         if mutated is not None:
             ctx.label("mutate_" + name)
             related = parents[mutated] is not None or any(p == mutated for p in parents)
@@ -273,7 +300,7 @@ def check_history(case, ctx: Ctx):
     ctx.nt(derived_then_layout_mutation)
 
 
-DERIVE = ["copy", "copy_empty", "add", "sub", "mul", "rmul", "div", "normalize", "merge", "projection", "index", "select_int", "T",
+DERIVE = ["copy", "copy_empty", "add", "add_grown", "add_grown", "sub", "mul", "rmul", "div", "normalize", "merge", "projection", "index", "select_int", "T",
           "partial_normalize", "accumulate", "json", "sum1", "radd0", "collection_copy", "collection_copy", "collection_sum", "collection_normalize_all",
           "collection_create"]
 MUTATE = ["fill", "fill", "fill_n", "imul", "idiv", "iadd", "set_dtype", "rename", "axis_names", "meta", "merge_inplace"]
@@ -296,6 +323,8 @@ def one_op(draw):
         return [name, i, draw(st.integers(0, 9)), draw(st.integers(0, 9))]
     if name in ("partial_normalize", "accumulate"):
         return [name, i, draw(st.integers(0, 3))]
+    if name == "add_grown":
+        return [name, i, draw(st.lists(st.sampled_from([1.6, 2.4, -0.7, -1.5]), min_size=3, max_size=3)), draw(st.booleans())]
     if name == "collection_create":
         return [name, i, draw(st.lists(st.sampled_from([0.1, 0.5, 0.9, -0.7, 1.6, 2.4, 0.0]), min_size=1, max_size=4))]
     if name in ("fill", "fill_n"):
